@@ -134,7 +134,7 @@ func runC16(c *Ctx) bool {
 				}
 			}
 		}
-		if j%50 == 49 {
+		if j%25 == 24 {
 			doc, kind = []string{"", "\n\n", "  \n"}[r.Intn(3)], "blank"
 			f = nil
 		}
@@ -308,10 +308,8 @@ func evalC16(c *Ctx, cs *Case) {
 			}
 		}
 	}
-	if cs.Kind == "blank" {
-		return
-	}
-	// ---------------- mkdir (+ dry-run) and verify
+	// ---------------- mkdir (+ dry-run) and verify (also for documents without any root: the
+	// library makes nothing, verifies nothing and succeeds, and so must the CLI)
 	ei := r.Intn(len(ExtLists))
 	exts := ExtLists[ei]
 	var extArgs []string
@@ -416,6 +414,21 @@ func evalC16(c *Ctx, cs *Case) {
 					vres := runCLI(c, vcwd, vstdin, "", vargs...)
 					vlabel := strings.Join(vargs[:len(vargs)-map[bool]int{true: 1, false: 0}[withTarget]], " ")
 					judge(vlabel, vres, vlib.Err == nil && vlib.Panic == nil, nil, false, nil, map[string]any{"lib_err": errStr(vlib.Err)})
+				}
+				if withTarget {
+					// a target directory that does not exist: whatever the library says about it
+					// (nothing to verify for a document without roots, everything missing otherwise)
+					missing := filepath.Join(jc.Root, "no-such-target")
+					for _, strict := range []bool{false, true} {
+						margs := []string{"verify"}
+						if strict {
+							margs = append(margs, "--strict")
+						}
+						mlib := verifyCall(verifyRoutes[0], string(doc), nil, fsOpts(missing, nil, false, false, false, strict))
+						mres := runCLI(c, jc.Root, doc, "", append(margs, "--target-dir", missing)...)
+						c.Count("verify_against_a_missing_target", 1)
+						judge(strings.Join(margs, " ")+" --target-dir <missing>", mres, mlib.Err == nil && mlib.Panic == nil, nil, false, nil, map[string]any{"lib_err": errStr(mlib.Err)})
+					}
 				}
 			}
 			jc.Remove()
